@@ -101,4 +101,22 @@ META = {
         'technique': 'bounded exhaustive comparison with a reference automaton (stand-in) + data-flow obligations over the ast',
         'engine': 'native-crosscheck',
     },
+    'C19': {
+        'category': 'other',
+        'text': 'Reduced scope: frame obligations (copy-before-write) on Compiler.compile_member / compile_type of every codec and '
+                'module-threading data-flow obligations on the type-resolution functions of codecs/compiler.py. These are the two '
+                'mechanisms of the property that reduce to per-function obligations; the relational statement over reorganised '
+                'specifications is not decided.',
+        'note': 'Not covered: DEFAULT conversion through references, transitive aliasing through ExplicitTag.inner, permutations.',
+        'technique': 'ownership/frame obligations (pyvc-own) + data-flow obligations over the ast (no SMT)',
+        'engine': 'pyvc-own',
+    },
+    'C13': {
+        'category': 'other',
+        'text': 'Reduced scope: module-threading data-flow obligations on the COMPONENTS OF expansion and type resolution, and '
+                'copy-before-write frame obligations; idempotence of the in-place rewriting passes is not decided.',
+        'note': 'Not covered: idempotence/option independence of pre_process passes (known defect 12 open), pformat/eval fidelity.',
+        'technique': 'data-flow obligations over the ast + ownership/frame obligations (no SMT)',
+        'engine': 'pyvc-own',
+    },
 }
